@@ -41,7 +41,7 @@ var NotApplicable = []NA{
 	{"C11", notYet}, {"C12", notYet}, {"C13", notYet},
 	{"C14", "a grid of (server parameters x offers) through a pure negotiator; the only history in it (reset) is covered by C18 (DESIGN.md §5)."},
 	{"C15", "'for arbitrary bytes never panics/hangs' explored by coverage-guided mutation is fuzzing of pure decoders, not simulation; panics or frozen step counters met inside claimed properties' runs are still reported there (DESIGN.md §5)."},
-	{"C17", notYet}, {"C18", notYet}, {"C19", notYet}, {"C20", notYet},
+	{"C17", notYet}, {"C19", notYet}, {"C20", notYet},
 }
 
 var Real = []string{
@@ -99,6 +99,12 @@ var All = []*Spec{
 		LevelText: "fault enumeration: per sampled workload every cut point is executed. Oracle: units wholly before the cut are delivered exactly; no API reports success for the cut unit; a cut payload or a stream ending inside a message never yields io.EOF; control handlers never read a clean EOF before Header.Length bytes; Discard of a cut message fails; no reply is produced from a cut control frame.",
 		LevelNote: "a cut inside a header while no message is open only has to be an error (io.EOF included); ws.ReadFrame only has to return an error; which error is not checked.",
 		DesignRef: "§4 C16", Technique: "deterministic simulation: exhaustive cut-point enumeration per seeded workload"},
+	{ID: "C18", Engine: "wire", Level: "exploration", Quick: 24000, Thorough: 2400000,
+		Rule: "each run draws an object class (wsutil.Writer via Reset / ResetOp / PutWriter+GetWriter, wsflate.Writer, wsflate.Reader, CipherReader/Writer, UTF8Reader, wsflate.Extension, wsutil.Reader across messages), a first life H1 (any history incl. an injected failed destination write, growth, DisableFlush, extensions, other side, unflushed partial message, truncated/corrupt compressed input, mid-sequence or rejected UTF-8, accepted offer), the reset, and a second life H2; non-trivial = every run (two lives); distinct = trace digests",
+		Stub: stubWire, Assume: assumeCommon,
+		LevelText: "seeded exploration with a differential oracle: the transcript of H2 (every return value, Size/Available/Buffered or Valid/Accepted getters, bytes sent) on the reused object equals the transcript of H2 on a freshly constructed object with the same buffer length, state and opcode, masks reseeded identically.",
+		LevelNote: "the buffer length of a wsutil.Writer is read by reflection (field raw) to build the fresh twin; ResetOp is compared with a fresh writer carrying the same extensions and flush mode, as documented.",
+		DesignRef: "§4 C18", Technique: "deterministic simulation: seeded two-life histories with injected I/O errors, differential against a fresh instance"},
 }
 
 func Find(id string) *Spec {
